@@ -93,6 +93,8 @@ def write_tree(node, directory, rootdir, names_used, stats, depth=0, anc_dirs=()
             stats['uniq'] = stats.get('uniq', 0) + 1
             child.name = 'fu%d.asm' % stats['uniq']
         stats['depth'] = max(stats['depth'], depth + 1)
+        if child.place in ('parent', 'sibling') and not (os.path.dirname(directory) + os.sep).startswith(rootdir + os.sep):
+            child.place = 'same'    # never leave the scratch tree (a file directly below its root has no parent inside it)
         if child.place == 'same':
             cdir, written = directory, child.name
         elif child.place == 'sub':
